@@ -40,14 +40,31 @@ CONSTANTS NQ,           \* malformed-side queues q1..qNQ (<= 4)
           MinSet,       \* minMember values
           FracSet, MemSet, DevSet,   \* annotation classes (names only; strings are the harness's)
           NodeSet,      \* node shape classes
-          OnlyTerminating  \* TRUE: restrict Init to scenarios for which no hang is predicted
+          OnlyTerminating, \* TRUE: restrict Init to scenarios for which no hang is predicted
+          SitSet           \* situations the malformed job is put into (subset of Sits, contains "alloc")
 
 QName(i) == "q" \o ToString(i)
 QN == {QName(i) : i \in 1..NQ}
 Missing == "missing"
 ParVals == QN \cup {"", Missing}
-Ctl == {"cdept", "cteam"}
-CtlPar(q) == IF q = "cteam" THEN "cdept" ELSE ""
+\* healthy queues: the control workload's (cdept <- cteam) and those of the well-formed counterpart jobs of the
+\* situations (rdept <- rteam)
+Ctl == {"cdept", "cteam", "rdept", "rteam"}
+CtlPar(q) == IF q = "cteam" THEN "cdept" ELSE IF q = "rteam" THEN "rdept" ELSE ""
+
+(* SITUATIONS. The malformed objects are crossed with the role their job plays in the cycle (all actions of the
+   default configuration run: allocate, consolidation, reclaim, preempt, stalegangeviction):
+     alloc      pending, there is room (only allocate has work)
+     vreclaim   RUNNING, its queue over its fair share, the cluster part it runs on is full and a well-formed
+                pending job of another queue (rteam), under its fair share, reclaims: the job is a reclaim victim
+     vpreempt   RUNNING; a well-formed pending job of higher priority in the SAME queue preempts: preempt victim
+     vconsol    RUNNING, one pod on each of two half-full nodes; a well-formed pending pod needs a whole node:
+                consolidation considers moving the job's pods
+     reclaimer  pending, the cluster part is full of a well-formed running job of another queue over its fair share
+     preemptor  pending with higher priority, the cluster part is full of a well-formed lower-priority running job
+                of the same queue *)
+Sits == {"alloc", "vreclaim", "vpreempt", "vconsol", "reclaimer", "preemptor"}
+NonAlloc == SitSet \ {"alloc"}
 
 (***************************************************************************)
 (* Static (declarative) reading of the queue algorithms; parametric in the  *)
@@ -88,7 +105,8 @@ BaseJobQ == IF NQ >= 2 THEN "q2" ELSE "q1"
 NoSubs == <<>>
 Base == [fam |-> "B", par |-> BasePar, jobq |-> BaseJobQ, pgmin |-> 1, subs |-> NoSubs,
          labels |-> <<"", "">>, frac |-> "absent", mem |-> "absent", dev |-> "absent", gpu |-> 0,
-         node |-> "healthy", pin |-> 0, press |-> 0, run |-> 0]
+         node |-> "healthy", pin |-> 0, press |-> 0, run |-> 0, sit |-> "alloc"]
+InSits(S, X) == {[s EXCEPT !.sit = x] : s \in S, x \in X}
 
 \* ---- family Q
 Idx(x) == IF x = "" THEN 0 ELSE IF x = Missing THEN NQ + 1 ELSE CHOOSE i \in 1..NQ : QName(i) = x
@@ -109,8 +127,13 @@ FamQc0 == IF Canonical THEN {s \in FamQ : IsCanonical(s.par, s.jobq)} ELSE FamQ
 \* cannot be placed (the reclaim / preempt / consolidation paths are exercised);
 \* run = 1: the job's first pod is already running
 Pressed(s, pr) == IF pr = 0 THEN s ELSE [s EXCEPT !.press = 1, !.gpu = 1, !.pin = 1, !.node = "notready"]
+\* shapes whose job survives snapshotting as written (its queue is alive; a queue in a cycle counts: whether the
+\* cycle is pruned is the implementation's business) get the press / run variants and every situation
+QSurvives(s) == s.jobq \in LiveAsIs(QN \cup Ctl, [q \in QN \cup Ctl |-> IF q \in Ctl THEN CtlPar(q) ELSE s.par[q]])
 FamQc == IF "Q0" \in Families THEN FamQc0
-         ELSE {[Pressed(s, pr) EXCEPT !.run = rn] : s \in FamQc0, pr \in {0, 1}, rn \in {0, 1}}
+         ELSE FamQc0
+              \cup {[Pressed(s, pr) EXCEPT !.run = rn] : s \in {x \in FamQc0 : QSurvives(x)}, pr \in {0, 1}, rn \in {0, 1}}
+              \cup InSits({x \in FamQc0 : QSurvives(x)}, NonAlloc)
 
 \* ---- family S
 SubNames == {"a", "b", "c"}
@@ -122,9 +145,14 @@ Subs2 == {<<SG("a", p1, m1), SG(n2, p2, m2)>> :
 Subs3 == {<<SG("a", p1, 1), SG("b", p2, 1), SG("c", p3, m3)>> :
             p1 \in {"nil", "a", "b", "c"}, p2 \in {"nil", "a", "c", Missing}, p3 \in {"nil", "a", "b", "c"}, m3 \in {0, 1}}
 LabelSets == {<<"", "">>, <<"a", "b">>, <<"a", "zzz">>, <<"c", "c">>}
+\* the sub-group specs that are crossed with the situations
+Subs2r == {<<SG("a", p1, m1), SG(n2, p2, m2)>> :
+            p1 \in {"nil", Missing}, m1 \in MinSet, n2 \in {"a", "b"}, p2 \in {"nil", "a"}, m2 \in {0, 1}}
+Subs3r == {<<SG("a", "nil", 1), SG("b", p2, 1), SG("c", p3, m3)>> : p2 \in {"nil", "a"}, p3 \in {"nil", "a", "b"}, m3 \in {0, 1}}
+SitLabelSets == {<<"a", "a">>, <<"a", "b">>, <<"a", "zzz">>}
 FamS == {[Base EXCEPT !.fam = "S", !.subs = ss, !.labels = ls] : ss \in Subs1 \cup Subs2 \cup Subs3, ls \in LabelSets}
-        \cup {[Pressed([Base EXCEPT !.fam = "S", !.subs = ss, !.labels = <<"a", "a">>, !.pgmin = 2], pr) EXCEPT !.run = rn] :
-                ss \in Subs1 \cup Subs3, rn \in {0, 1}, pr \in {0, 1}}
+        \cup InSits({[Base EXCEPT !.fam = "S", !.subs = ss, !.labels = ls] : ss \in Subs1 \cup Subs2r \cup Subs3r, ls \in SitLabelSets}
+                    \cup {[Base EXCEPT !.fam = "S", !.pgmin = pm] : pm \in MinSet}, NonAlloc)
         \cup {[Base EXCEPT !.fam = "S", !.pgmin = pm, !.labels = ls] : pm \in MinSet, ls \in LabelSets}
         \cup {[Base EXCEPT !.fam = "S", !.pgmin = pm, !.subs = <<SG("a", "nil", 1), SG("b", "nil", 1)>>, !.labels = ls] :
                 pm \in MinSet, ls \in LabelSets}
@@ -136,7 +164,8 @@ CoreD == {"absent", "two"}
 FamP == {[Base EXCEPT !.fam = "P", !.frac = f, !.mem = m, !.dev = d, !.gpu = g, !.run = rn] :
             f \in FracSet, m \in MemSet, d \in DevSet, g \in {0, 1}, rn \in {0, 1}}
 NonCore(s) == (IF s.frac \notin CoreF THEN 1 ELSE 0) + (IF s.mem \notin CoreM THEN 1 ELSE 0) + (IF s.dev \notin CoreD THEN 1 ELSE 0)
-FamPs == {s \in FamP : NonCore(s) <= 1}
+FamPs == {s \in FamP : NonCore(s) <= 1 /\ s.run = 0}
+         \cup InSits({s \in FamP : NonCore(s) <= 1 /\ s.run = 0 /\ s.gpu = 0}, NonAlloc)
 
 \* ---- family N (request kind of the pod through its annotations / container)
 Kinds == {[frac |-> "absent", mem |-> "absent", gpu |-> 0], [frac |-> "absent", mem |-> "absent", gpu |-> 1],
@@ -182,6 +211,7 @@ SigMain(s) ==
 \* (a predicted hang keeps the bare cycle signature whatever the pods look like)
 Sig(s) == IF s.fam = "Q" /\ WalkHangs(LiveAsIs(AllQ(s), FullPar(s)), FullPar(s), s.jobq) THEN SigMain(s)
           ELSE SigMain(s) \o (IF s.press = 1 THEN " unplaceable-pods" ELSE "") \o (IF s.run = 1 THEN " running-pod" ELSE "")
+                          \o (IF s.sit # "alloc" THEN " sit=" \o s.sit ELSE "")
 
 (***************************************************************************)
 (* The algorithm                                                           *)
@@ -198,7 +228,7 @@ Init ==
   /\ children = [q \in QN \cup Ctl |-> {}]
   /\ todo = QN \cup Ctl
   /\ stack = <<>>
-  /\ walks = <<scn.jobq, "cteam">>      \* the queues of the jobs of the scenario
+  /\ walks = <<scn.jobq, "cteam", "rteam">>      \* the queues of the jobs of the scenario
   /\ cur = ""
   /\ steps = 0
 
